@@ -490,4 +490,57 @@ theorem center_shift (N : ℕ) (hN : 0 < N) (X : ℕ → ℕ → ℚ) (μ : ℕ 
   field_simp
   ring
 
+theorem interp_linear : ∀ (c : List (ℚ × ℚ × ℚ)) (a b x : ℚ),
+    interp (c.map fun p => (p.1, a * p.2.1 + b * p.2.2)) x =
+      a * interp (c.map fun p => (p.1, p.2.1)) x + b * interp (c.map fun p => (p.1, p.2.2)) x
+  | [], a, b, x => by simp [interp]
+  | [p], a, b, x => by simp [interp]
+  | p :: q :: rest, a, b, x => by
+    have ih := interp_linear (q :: rest) a b x
+    simp only [List.map_cons] at ih ⊢
+    unfold interp
+    by_cases h0 : x ≤ p.1
+    · simp [h0]
+    · by_cases h1 : x ≤ q.1
+      · simp only [h0, h1, if_false, if_true]; ring
+      · simp only [h0, h1, if_false]
+        exact ih
+
+theorem filter_key_singleton : ∀ (l : List (ℚ × ℕ × ℚ)), (l.map fun r => r.1).Pairwise (· < ·) →
+    ∀ r ∈ l, l.filter (fun q => q.1 = r.1) = [r]
+  | [], _, r, h => by cases h
+  | p :: l, hs, r, h => by
+    simp only [List.map_cons] at hs
+    have hp := (List.pairwise_cons.mp hs).1
+    have hl := (List.pairwise_cons.mp hs).2
+    rcases List.mem_cons.mp h with rfl | hr
+    · have : l.filter (fun q => q.1 = r.1) = [] := by
+        apply List.filter_eq_nil_iff.mpr
+        intro q hq
+        have := hp q.1 (List.mem_map.mpr ⟨q, hq, rfl⟩)
+        simp only [decide_eq_true_eq]
+        intro h; rw [h] at this; exact lt_irrefl _ this
+      simp [this]
+    · have hne : ¬ p.1 = r.1 := by
+        have := hp r.1 (List.mem_map.mpr ⟨r, hr, rfl⟩)
+        intro h; rw [h] at this; exact lt_irrefl _ this
+      simp only [List.filter_cons, hne, decide_false]
+      exact filter_key_singleton l hl r hr
+
+theorem binned_of_sorted (long : List (ℚ × ℕ × ℚ)) (hs : (long.map fun r => r.1).Pairwise (· < ·)) :
+    binned long = long.map fun r => (r.1, r.2.2) := by
+  unfold binned
+  rw [unique_eq_of_mem _ _ hs (fun _ => Iff.rfl), List.map_map]
+  apply List.map_congr_left
+  intro r hr
+  simp only [Function.comp]
+  rw [filter_key_singleton long hs r hr]
+  simp
+
+theorem sum_map_range (n : ℕ) (f : ℕ → ℚ) :
+    ((List.range n).map f).sum = ∑ i ∈ Finset.range n, f i := by
+  induction n with
+  | zero => simp
+  | succ n ih => rw [List.range_succ, List.map_append, List.sum_append, ih, Finset.sum_range_succ]; simp
+
 end FDA.Irr
